@@ -42,6 +42,10 @@ CLAIMED = {
          "Exploration: for generated class definitions (multi-class characters, ALL, NOOOVBOW/2), invoke/group/length flags, unk.def lines, provider orders (MeCab, Regex strict/relaxed with maxLength, Simple) and texts (also runs beyond 64 characters) each provider's candidates at every offset with empty / non-empty created-length sets, and the lattice's node sets at every boundary, must equal the reference built from the left-to-right class runs, the created-lengths rule, the NOOOVBOW skip and the fallback re-invocation; OOV morphemes must report is_oov, dictionary -1, a configured POS and the normalised slice as forms. No absence claim.",
          "can_bow is read from the built input buffer (oracle input). The regex provider is compared using the same regex crate. Candidates are compared as sets (multiplicity unspecified).",
          "DESIGN.md section 4, C13"),
+ "C14": ("property-based testing (proptest): differential between the same generated configuration with and without the pathRewritePlugin list",
+         "Exploration: generated lexicons over numerals, separators and katakana, both plugin orders and settings, texts with numerals, separators at the edges and katakana runs are analysed in mode C with and without path rewriting; rewritten boundaries must be plain boundaries, a token covering several plain tokens must carry the concatenation of their dictionary-side surfaces and a POS a configured plugin prescribes, a token covering one plain token must be identical to it except for the documented single-token numeral normalisation. No absence claim.",
+         "Rows with cost -32768 are not generated (their load-time cost depends on the configured plugins, which would make the two sides of the differential different dictionaries). Texts containing empty-range tokens are only judged on the boundary clause. Which tokens get merged is not constrained here (C15 does that for numerals).",
+         "DESIGN.md section 4, C14"),
  "C17": ("property-based testing (proptest): generated definition files against a union-of-covering-lines reference; point queries at all range ends and neighbours, random scalars, and (thorough) every scalar value",
          "Exploration: for generated char.def files (overlapping, nested, adjacent, duplicated, single-point ranges around 0, the UTF-8 width boundaries, the surrogate gap and U+10FFFF; ALL and NOOOVBOW flags; comments and category lines) that load, the reported classes at every range end +-1, 0, U+10FFFF and 64 random scalars equal the union of covering lines (DEFAULT if none); the range iterator must be ordered, gap free and consistent with point queries. No absence claim.",
          "Files the loader rejects (reversed range, range ending at U+D7FF or U+10FFFF, unknown class) are not judged: the statement speaks about files that load. The iterator is only checked for files with at least one range line.",
